@@ -1052,11 +1052,22 @@ func (w *walker) deref(t *Term) *Loc {
 	return &Loc{Root: "T:" + t.String(), Len: -1}
 }
 
+// FieldNames, when set, returns the recorded field names of a named module
+// struct type ("rel.Type"): a renamed unexported field is the same field
+// (fields are identified by position; the alias applies while the number of
+// fields is unchanged).
+var FieldNames func(typeKey string) []string
+
 func fieldName(t types.Type, idx int) string {
 	if pt, ok := t.Underlying().(*types.Pointer); ok {
 		t = pt.Elem()
 	}
 	if st, ok := t.Underlying().(*types.Struct); ok && idx < st.NumFields() {
+		if n, ok := t.(*types.Named); ok && FieldNames != nil && n.Obj().Pkg() != nil {
+			if rec := FieldNames(load.Rel(n.Obj().Pkg()) + "." + n.Obj().Name()); len(rec) == st.NumFields() {
+				return rec[idx]
+			}
+		}
 		return st.Field(idx).Name()
 	}
 	return fmt.Sprintf("f%d", idx)
